@@ -85,3 +85,20 @@ Definition decode_file (b : list N) : N * list sentry :=
   let metas := until_void (words cap (skipn 8 b)) in
   let idx := words (S cap) (skipn (8 + 8 * cap) b) in
   (n128, entries_of b metas idx).
+
+(** ---------- an append as the sequence of its writes (MocSetFileWriter::append_moc / append_moc_bytes) ----------
+    1. the data of the new MOC at the byte given by the index slot of the first void entry (whatever an
+       interrupted append left there is overwritten), 2. the next index slot := end of that data,
+    3. the metadata word of the void entry := flag | depth | identifier.  The three files: *)
+Definition write_at (off : nat) (bytes file : list N) : list N :=
+  firstn off file ++ bytes ++ skipn (off + length bytes) file.
+
+Definition append_steps (n128 : N) (ents : list sentry) (e : sentry) (f : list N) : list (list N) :=
+  let n := length ents in
+  let cap := cap_of n128 in
+  let from := (N.to_nat (hdr_size n128) + length (data_part ents))%nat in
+  let de := moc_data (e_moc smoc e) in
+  let f1 := write_at from de f in
+  let f2 := write_at (8 + 8 * cap + 8 * S n) (le_bytes 8 (N.of_nat (from + length de))) f1 in
+  let f3 := write_at (8 + 8 * n) (le_bytes 8 (raw_meta e)) f2 in
+  [f1; f2; f3].
